@@ -59,6 +59,9 @@ func caseGen() *rapid.Generator[Case] {
 		c.Align = rapid.SliceOfN(rapid.IntRange(0, 3), 0, 5).Draw(t, "align")
 		c.Skip = rapid.SliceOfN(rapid.IntRange(0, 2), 0, 5).Draw(t, "skip")
 		c.Poison = rapid.IntRange(0, 3).Draw(t, "poison") == 0
+		if rapid.IntRange(0, 3).Draw(t, "props?") == 0 {
+			c.Props = gen.PropHistGen(8).Draw(t, "props")
+		}
 		if rapid.IntRange(0, 2).Draw(t, "pre?") == 0 {
 			c.Pre = 1 + rapid.IntRange(0, len(c.Script.Ops)).Draw(t, "pre")
 		}
@@ -67,6 +70,17 @@ func caseGen() *rapid.Generator[Case] {
 }
 
 func TestProp(t *testing.T) { prop.Rapid(t, caseGen()) }
+
+// TestShadow: the same search in a process where the application has registered decorations of its own under the
+// very names of the formats ("csv", "json", ... are legal decoration names): the format names keep meaning the formats.
+func TestShadow(t *testing.T) {
+	g := caseGen()
+	prop.Rapid(t, rapid.Custom(func(t *rapid.T) Case {
+		c := g.Draw(t, "case")
+		c.Shadow = true
+		return c
+	}))
+}
 
 // TestEnum: fixed contents x every creator x every chain of depth <= 2 x every target.
 func TestEnum(t *testing.T) {
